@@ -94,6 +94,11 @@ pub fn check(c: &Case) -> CheckResult {
     let m32 = ti.then(&to_transform(&c.sxf));
     let m = [m32.m11 as f64, m32.m12 as f64, m32.m21 as f64, m32.m22 as f64, m32.m31 as f64, m32.m32 as f64];
     let int_tr = is_int_translation(&m);
+    // both matrices pure translations by small multiples of 1/256: every step (f32 inverse, concatenation,
+    // 16.16 conversion, per-pixel stepping) is exact, so Nearest must return texel floor(u), floor(v) with no
+    // allowance even when the sample falls exactly on a texel boundary
+    let dy = |x: &Xf| x[0] == 1.0 && x[1] == 0.0 && x[2] == 0.0 && x[3] == 1.0 && (x[4] * 256.0).fract() == 0.0 && (x[5] * 256.0).fract() == 0.0 && x[4].abs() <= 64.0 && x[5].abs() <= 64.0;
+    let dyadic_tr = dy(&c.ctm) && dy(&c.sxf);
     let mut outside = false;
     let mut ambiguous = 0u64;
     for py in 0..c.h {
@@ -106,7 +111,7 @@ pub fn check(c: &Case) -> CheckResult {
             }
             // 16.16 matrix entries times the pixel index, plus f32 inverse/concatenation noise
             let scale = 1.0 + u.abs().max(v.abs());
-            let eps = (px + py + 2) as f64 / 65536.0 + 1e-4 + 4e-6 * scale;
+            let eps = if dyadic_tr { 0.0 } else { (px + py + 2) as f64 / 65536.0 + 1e-4 + 4e-6 * scale };
             if int_tr {
                 // pure integer translation: both filters must return exactly the addressed texel
                 let t = texel(&c.img, u.floor() as i64, v.floor() as i64, c.repeat);
@@ -203,6 +208,7 @@ pub fn check(c: &Case) -> CheckResult {
     });
     o.class(if c.repeat { "extend:repeat" } else { "extend:pad" });
     o.class_if(outside, "samples-outside-image");
+    o.class_if(dyadic_tr && c.nearest && !int_tr && ((m[4] + 0.5).fract() == 0.0 || (m[5] + 0.5).fract() == 0.0), "nearest-sample-exactly-on-texel-boundary");
     o.class(classify_xf(&c.ctm));
     Ok(o)
 }
@@ -212,6 +218,8 @@ fn small_xf() -> BoxedStrategy<Xf> {
         3 => Just(IDENT),
         3 => (-12i32..=12, -12i32..=12).prop_map(|(x, y)| [1., 0., 0., 1., x as f32, y as f32]),
         2 => (-12.0f32..12.0, -12.0f32..12.0).prop_map(|(x, y)| [1., 0., 0., 1., x, y]),
+        // half and quarter pixel translations: samples land exactly on texel boundaries and centres
+        2 => (-24i32..=24, -24i32..=24, prop::sample::select(vec![2.0f32, 4.0])).prop_map(|(x, y, q)| [1., 0., 0., 1., x as f32 / q, y as f32 / q]),
         2 => (0.2f32..3.0, 0.2f32..3.0, -6.0f32..6.0, -6.0f32..6.0).prop_map(|(a, b, x, y)| [a, 0., 0., b, x, y]),
         2 => (0.0f32..360.0, 0.3f32..2.5, -6.0f32..6.0, -6.0f32..6.0).prop_map(|(ang, s, x, y)| { let r = (ang as f64).to_radians(); let (c, sn) = (r.cos() as f32 * s, r.sin() as f32 * s); [c, sn, -sn, c, x, y] }),
         1 => (prop::sample::select(vec![3.0f32, 5.0, 2.0, -1.0]), -4i32..=4, -4i32..=4).prop_map(|(k, x, y)| [k, 0., 0., k, x as f32, y as f32]),
@@ -337,7 +345,7 @@ fn draw_strategy() -> BoxedStrategy<DrawCase> {
 pub fn property(_ctx: &Ctx) -> Property {
     Property {
         id: "C13",
-        rule: "part sample: images 1..8 x 1..8 of random premultiplied texels (plus position-coded images), Pad/Repeat, Nearest/Bilinear, alpha in {1,0.5,uniform}, CTM and source transform each from {identity, integer translation (negative, beyond the image), fractional translation, scale 0.2-3, rotation x scale, integer scales 2/3/5/-1}, surfaces 2..16 px, rendered with a full-surface Src fill. Oracle: f64 texel addressing M(pixel centre) (inverse CTM then source transform): nearest = texel(floor) with clamp / euclidean wrap, either neighbour accepted within the 16.16 epsilon; bilinear within [min-2,max+2] of the four texels around (u-0.5,v-0.5), the exact texel at exactly representable texel centres; integer translations exact for both filters; alpha scaling within 1/255 (exact at alpha 1). part draw: draw_image_at at integer (exact texel placement) and fractional positions and draw_image_with_size_at with random sizes; pixels wholly outside the rectangle untouched, inside by the bilinear rule. Non-trivial: image >= 2x2 with >= 2 distinct texels and (some sample outside the image or a non-integer-translation matrix); distinct by hash of the case.",
+        rule: "part sample: images 1..8 x 1..8 of random premultiplied texels (plus position-coded images), Pad/Repeat, Nearest/Bilinear, alpha in {1,0.5,uniform}, CTM and source transform each from {identity, integer translation (negative, beyond the image), fractional translation, half/quarter-pixel translation, scale 0.2-3, rotation x scale, integer scales 2/3/5/-1}, surfaces 2..16 px, rendered with a full-surface Src fill. Oracle: f64 texel addressing M(pixel centre) (inverse CTM then source transform): nearest = texel(floor) with clamp / euclidean wrap, either neighbour accepted within the 16.16 epsilon (no allowance when both matrices are translations by multiples of 1/256, where every step is exact; half- and quarter-pixel translations are generated so that samples fall exactly on texel boundaries); bilinear within [min-2,max+2] of the four texels around (u-0.5,v-0.5), the exact texel at exactly representable texel centres; integer translations exact for both filters; alpha scaling within 1/255 (exact at alpha 1). part draw: draw_image_at at integer (exact texel placement) and fractional positions and draw_image_with_size_at with random sizes; pixels wholly outside the rectangle untouched, inside by the bilinear rule. Non-trivial: image >= 2x2 with >= 2 distinct texels and (some sample outside the image or a non-integer-translation matrix); distinct by hash of the case.",
         assumptions: vec!["sampling epsilon (px+py+2)/65536 + 1e-4 (+4e-6 x coordinate scale) for the 16.16 matrix and the f32 inverse", "pixels straddling the rectangle edge of draw_image_* are not judged"],
         parts: vec![part("sample", 100_000, 2_000_000, strategy, check), part("draw", 40_000, 600_000, draw_strategy, check_draw)],
         min_class_fraction: vec![
